@@ -461,14 +461,16 @@ def component_class_table() -> dict[str, dict]:
             is_fault = "generate_events" in o.__dict__ and not in_components
             if not (is_ent or gens or is_fault):
                 continue
-            own = [k for k, v in o.__dict__.items() if inspect.isfunction(v)]
+            if getattr(o, "_is_protocol", False):
+                continue  # typing.Protocol stubs (Fault) have no behaviour to drive
+            own = [k for k, v in o.__dict__.items() if inspect.isfunction(getattr(v, "__func__", v))]
             entry = [k for k in ("handle_event", "handle_queued_event", "generate_events") if k in o.__dict__] + gens
             # a no-op handle_event (sync primitives, Resource) is not an entry point
             if "handle_event" in entry and _is_noop(o.__dict__["handle_event"]):
                 others = [k for k in own if not k.startswith("_") and k != "handle_event"]
                 entry = [k for k in entry if k != "handle_event"] or others
             if not entry:
-                entry = [k for k in own if not k.startswith("__")]
+                entry = [k for k in own if not k.startswith("__")] or ["__init__"]
             parts = mod.__name__.split(".")
             fam = parts[2] if in_components else parts[1]
             rel = "/".join(parts[1:])
